@@ -166,12 +166,19 @@ fn escape_rules(src: &mut Src) -> Vec<RuleDef> {
     let pool: &[char] = &[
         'a', 'Z', '0', ' ', '~', '\n', '\r', '\t', '\\', '\'', '"', '\0', '\u{1}', '\u{7f}', '\u{80}', '\u{ff}', '\u{100}', '\u{7ff}', '\u{800}', 'é',
         '\u{d7ff}', '\u{e000}', '\u{fffd}', '\u{ffff}', '\u{10000}', '🙂', '\u{10ffff}', '#', ';', '|', '{', ']', '\u{a}', '\u{1b}',
+        // Latin-1 characters whose code points look like UTF-8 lead / continuation bytes
+        '\u{c3}', '\u{a9}', '\u{c2}', '\u{a0}', '\u{e2}', '\u{82}', '\u{ac}', '\u{f0}', '\u{9f}', '\u{99}',
     ];
+    // "mojibake": the Latin-1 reading of the UTF-8 bytes of a multi-byte character (\xC3\xA9 is two characters, not é)
+    let mojibake: &[&str] = &["\u{c3}\u{a9}", "\u{e2}\u{82}\u{ac}", "\u{f0}\u{9f}\u{99}\u{82}", "\u{c2}\u{a0}x", "a\u{c3}\u{9f}", "\u{df}\u{bf}"];
     let mut out = vec![];
     let n = src.range(0, 3);
     for k in 0..n {
         let len = src.range(1, 6);
         let mut s = String::new();
+        if src.chance(50) {
+            s.push_str(*src.choose(mojibake));
+        }
         for _ in 0..len {
             s.push(*src.choose(pool));
         }
